@@ -149,7 +149,7 @@ def main():
             i += 1
     t0 = time.time()
     machinery = []
-    base = tempfile.mkdtemp(prefix="jbkmc-c14-", dir="/dev/shm" if os.path.isdir("/dev/shm") else "/var/tmp")
+    base = tempfile.mkdtemp(prefix="jbkmc-c14-", dir=os.environ.get("JBKMC_SCRATCH_ROOT") or ("/dev/shm" if os.path.isdir("/dev/shm") else "/var/tmp"))
     rep = {"engine": "c14.py", "property": "C14"}
     try:
         p = subprocess.run([CORPUSMC, "gen", "--dir", base, "--set", tier if tier in ("quick", "thorough") else "quick"], capture_output=True, text=True)
